@@ -178,6 +178,30 @@ def check(run, ctx):
             run.finding(I5, fn, "no-lower", f"{fn} never case-folds its operands", f.loc)
         else:
             run.ok(I5, fn, f"{len(lowers)} operands folded, no raw comparison")
+    # a parameter that the callee compares as it is (named *_lower) is handed a case-folded value at every call site
+    rm_funcs = [g for g in repo.funcs_in(f"{RM}.") if g.parent is None]
+    n_lp = 0
+    for callee in rm_funcs:
+        for i, a in enumerate(callee.node.args.args):
+            if not a.arg.endswith("_lower"):
+                continue
+            for caller in rm_funcs:
+                for c in ast.walk(caller.node):
+                    if not (isinstance(c, ast.Call) and call_name(c) == callee.name):
+                        continue
+                    arg = c.args[i] if i < len(c.args) else next((k.value for k in c.keywords if k.arg == a.arg), None)
+                    if arg is None:
+                        continue
+                    n_lp += 1
+                    folded = contains(arg, lambda x: isinstance(x, ast.Call) and call_name(x) in ("lower", "casefold"))
+                    if isinstance(arg, ast.Name) and not folded:
+                        binds = [b.value for b in ast.walk(caller.node) if isinstance(b, ast.Assign) and len(b.targets) == 1 and isinstance(b.targets[0], ast.Name) and b.targets[0].id == arg.id]
+                        folded = (bool(binds) and all(contains(b, lambda x: isinstance(x, ast.Call) and call_name(x) in ("lower", "casefold")) for b in binds)) or (not binds and arg.id.endswith("_lower") and arg.id in {p_.arg for p_ in caller.node.args.args})
+                    if folded:
+                        run.ok(I5, f"{caller.name} -> {callee.name}({a.arg})", "case-folded argument")
+                    else:
+                        run.finding(I5, caller.name, f"unfolded-arg:{callee.name}:{a.arg}", f"{caller.name} hands `{norm(arg)[:40]}` to {callee.name}, which compares its parameter {a.arg} without folding it: a directive that spells the (deprecated) rule name with capitals (`ignore[Print-Statements]`) no longer matches", f"{caller.module.rel}:{c.lineno}")
+    run.require(n_lp >= 1, "I5: no call site hands a value to a *_lower parameter (positive control: _matches_via_alias -> _pattern_matches_deprecated_id)")
     ids = L.emitted_ids()
     aliases = repo.fold(repo.mod("src.core.rule_aliases"), repo.mod("src.core.rule_aliases").assigns.get("RULE_ID_ALIASES"))
     run.require(isinstance(aliases, dict), "RULE_ID_ALIASES not foldable")
